@@ -267,7 +267,7 @@ def check(run: Run) -> None:
     run.rule("C12.R9", "the cleaner handed to the executor removes exactly the empty MetaData wrappers, at every depth (rule set of C15 re-evaluated)")
     from ..report import run_stage
 
-    run_stage(run, "c15", only={"C15.R3", "C15.R4", "C15.S"})  # the cleaner; extraction (R1, R2) is not on value()'s path
+    run_stage(run, "c15", only={"C15.R3", "C15.R4", "C15.R5", "C15.S"})  # the cleaner; extraction (R1, R2) is not on value()'s path
 
     # ---------------- R5
     eff = effects_for(m)
